@@ -271,9 +271,26 @@ var robustLinkPaths = [][]types.PathMutation{
 	{{Path: "/usr/f2", Type: "hardlink", Source: "/usr/f"}, {Path: "/usr", Type: "directory", Permissions: 0o755, Recursive: true}},
 }
 
+// a whole build against a repository that is itself damaged or odd: the .apk a correct index points at is truncated,
+// garbage, empty, missing, an error page; or the index entry carries provides / dependency texts the grammar rejects.
+// One per case (a hang must be attributed to its input).
+type robustHostileRepo struct {
+	Damage   string   `json:"damage,omitempty"`
+	Provides []string `json:"provides,omitempty"`
+	Deps     []string `json:"deps,omitempty"`
+	Archs    int      `json:"archs,omitempty"`
+}
+
+var robustHostileRepos = []robustHostileRepo{
+	{Damage: "truncate-half"}, {Damage: "truncate-1"}, {Damage: "garbage"}, {Damage: "empty"}, {Damage: "missing"}, {Damage: "html"},
+	{Damage: "gzip-header-only"}, {Damage: "drop-data-member"}, {Damage: "flip-control"}, {Damage: "flip-data"}, {Damage: "truncate-half", Archs: 2},
+	{Provides: []string{"cmd:weird="}}, {Provides: []string{"=1.0"}}, {Provides: []string{"a@b@c"}}, {Provides: []string{"x", "", "y=1"}}, {Provides: []string{"so:libdemo.so.1=r5"}},
+	{Provides: []string{"cmd:weird=", "ok=1"}, Archs: 2}, {Deps: []string{"so:libdemo.so.1=r5"}}, {Deps: []string{"g>"}}, {Deps: []string{"g@"}}, {Deps: []string{"!g", "g"}},
+}
+
 func robustHasBuild(c robustCase) bool {
 	for _, in := range c.Inputs {
-		if in.Reader == "hostile-apk" || in.Reader == "hostile-paths" {
+		if in.Reader == "hostile-apk" || in.Reader == "hostile-paths" || in.Reader == "hostile-repo" {
 			return true
 		}
 	}
@@ -335,6 +352,9 @@ func (robustSuite) Gen(r *Rng, i int, tier string) any {
 	} else if j := i - 1 - len(robustLinkApks); j >= 0 && j < len(robustLinkPaths) {
 		b, _ := json.Marshal(robustLinkPaths[j])
 		add("hostile-paths", b)
+	} else if j := i - 1 - len(robustLinkApks) - len(robustLinkPaths); j >= 0 && j < len(robustHostileRepos) {
+		b, _ := json.Marshal(robustHostileRepos[j])
+		add("hostile-repo", b)
 	}
 	n := 60
 	for k := 0; k < n; k++ {
@@ -422,7 +442,7 @@ func (robustSuite) Gen(r *Rng, i int, tier string) any {
 			// generated): hostile link entries / dotted names / hardlink mutations through a whole build, at
 			// most one per case (see robustLinkApks)
 			r2 := &Rng{r.s ^ 0x6c696e6b64697273}
-			if i > len(robustLinkApks)+len(robustLinkPaths) && !robustHasBuild(c) && r2.Chance(20) {
+			if i > len(robustLinkApks)+len(robustLinkPaths)+len(robustHostileRepos) && !robustHasBuild(c) && r2.Chance(20) {
 				if r2.Chance(60) {
 					files := []SFile{{Path: "a", Type: "dir", Mode: 0o755}, {Path: "a/b", Type: "dir", Mode: 0o755}, {Path: "a/f", Type: "file", Mode: 0o644, Content: "x"}}
 					for k := r2.Range(1, 3); k > 0; k-- {
@@ -720,6 +740,65 @@ func robustApply(reader string, data []byte) (ans string) {
 			out2 := e2eBuild(ic2, repo, E2EOpts{Archs: []string{"x86_64"}})
 			return "err/" + okErr(out2.Err)
 		}
+		return okErr(out.Err)
+	case "hostile-repo":
+		var hr robustHostileRepo
+		if err := json.Unmarshal(data, &hr); err != nil {
+			return "unknown-reader"
+		}
+		archs := []string{"x86_64", "aarch64"}[:max(hr.Archs, 1)]
+		pk := []SPkg{{Name: "h", Version: "1.0-r0", Origin: "h", Provides: hr.Provides, Deps: hr.Deps, Files: []SFile{{Path: "usr", Type: "dir", Mode: 0o755}, {Path: "usr/h", Type: "file", Mode: 0o644, Content: "h"}}},
+			{Name: "g", Version: "1.0-r0", Origin: "g", Files: []SFile{{Path: "usr", Type: "dir", Mode: 0o755}, {Path: "usr/g", Type: "file", Mode: 0o644, Content: "g"}}}}
+		repo := BuildSynthRepo(pk, archs)
+		name := "x86_64/h-1.0-r0.apk"
+		if b, ok := repo.Files[name]; ok && hr.Damage != "" {
+			// offset at which the last gzip member (the data section) starts
+			lastStart := -1
+			for br := bytes.NewReader(b); br.Len() > 0; {
+				start := len(b) - br.Len()
+				zr, err := gzip.NewReader(br)
+				if err != nil {
+					break
+				}
+				zr.Multistream(false)
+				if _, err := io.Copy(io.Discard, zr); err != nil {
+					break
+				}
+				lastStart = start
+			}
+			switch hr.Damage {
+			case "truncate-half":
+				b = b[:len(b)/2]
+			case "truncate-1":
+				b = b[:len(b)-1]
+			case "garbage":
+				b = bytes.Repeat([]byte("not an apk at all\n"), 40)
+			case "empty":
+				b = nil
+			case "missing":
+				delete(repo.Files, name)
+			case "html":
+				b = []byte("<html><body>404 not found</body></html>")
+			case "gzip-header-only":
+				b = b[:10]
+			case "drop-data-member":
+				if lastStart > 0 {
+					b = b[:lastStart]
+				}
+			case "flip-control":
+				b = append([]byte{}, b...)
+				b[len(b)/8] ^= 0x55
+			case "flip-data":
+				b = append([]byte{}, b...)
+				b[len(b)-len(b)/8] ^= 0x55
+			}
+			if hr.Damage != "missing" {
+				repo.Files[name] = b
+			}
+		}
+		var ic types.ImageConfiguration
+		ic.Contents.Packages = []string{"h", "g"}
+		out := e2eBuild(ic, repo, E2EOpts{Archs: archs})
 		return okErr(out.Err)
 	case "hostile-paths":
 		// a whole build whose image configuration carries hostile path mutations
